@@ -7,31 +7,27 @@ open Py
 
 /-! ### one member leaves -/
 
-theorem chanMatches_remove {sc : SChan} {ch : Chan} (h : ChanMatches sc ch) (n : Str) :
-    ChanMatches (sc.remove (lower n)) (ch.removeUser n) where
-  users := fun x => by
-    simp only [Chan.removeUser, mem_sdel, SChan.remove, List.mem_filter, bne_iff_ne, ne_eq, h.users]
-    constructor
-    · rintro ⟨hx, f, hf⟩; exact ⟨f, hf, hx⟩
-    · rintro ⟨f, hf, hx⟩; exact ⟨hx, f, hf⟩
-  ops := fun x => by
-    simp only [Chan.removeUser, mem_sdel, SChan.remove, List.mem_filter, bne_iff_ne, ne_eq, h.ops]
-    constructor
-    · rintro ⟨hx, f, hf, ho⟩; exact ⟨f, ⟨hf, hx⟩, ho⟩
-    · rintro ⟨f, ⟨hf, hx⟩, ho⟩; exact ⟨hx, f, hf, ho⟩
-  halfops := fun x => by
-    simp only [Chan.removeUser, mem_sdel, SChan.remove, List.mem_filter, bne_iff_ne, ne_eq, h.halfops]
-    constructor
-    · rintro ⟨hx, f, hf, ho⟩; exact ⟨f, ⟨hf, hx⟩, ho⟩
-    · rintro ⟨f, ⟨hf, hx⟩, ho⟩; exact ⟨hx, f, hf, ho⟩
-  voices := fun x => by
-    simp only [Chan.removeUser, mem_sdel, SChan.remove, List.mem_filter, bne_iff_ne, ne_eq, h.voices]
-    constructor
-    · rintro ⟨hx, f, hf, ho⟩; exact ⟨f, ⟨hf, hx⟩, ho⟩
-    · rintro ⟨f, ⟨hf, hx⟩, ho⟩; exact ⟨hx, f, hf, ho⟩
+theorem Tracks.remove {full : Prop} {S : List Str} {ms : List (Str × Flags)} {P : Flags → Prop}
+    (h : Tracks full S ms P) (k : Str) : Tracks full (sdel S k) (ms.filter (fun p => p.1 != k)) P where
+  sub := fun x hx => by
+    obtain ⟨hne, hxS⟩ := mem_sdel.mp hx
+    obtain ⟨f, hf, hp⟩ := h.sub x hxS
+    exact ⟨f, List.mem_filter.mpr ⟨hf, by simpa using hne⟩, hp⟩
+  sup := fun hfull x ⟨f, hf, hp⟩ => by
+    obtain ⟨hf', hne⟩ := List.mem_filter.mp hf
+    exact mem_sdel.mpr ⟨by simpa using hne, h.sup hfull x ⟨f, hf', hp⟩⟩
+
+theorem chanMatches_remove {mp ms bs : Bool} {sc : SChan} {ch : Chan} (h : ChanMatches mp ms bs sc ch) (n : Str) :
+    ChanMatches mp ms bs (sc.remove (lower n)) (ch.removeUser n) where
+  users := h.users.remove _
+  ops := h.ops.remove _
+  halfops := h.halfops.remove _
+  voices := h.voices.remove _
   topic := h.topic
   modes := h.modes
+  modesFull := h.modesFull
   bans := h.bans
+  bansFull := h.bansFull
 
 theorem has_remove {sc : SChan} {k x : Str} : (sc.remove k).has x = true ↔ x ≠ k ∧ sc.has x = true := by
   simp only [has_iff, SChan.remove, List.mem_filter, bne_iff_ne, ne_eq]
@@ -80,15 +76,15 @@ theorem kickTargets_sub (ts : List Str) (sc : SChan) : ∀ t ∈ (kickTargets sc
     · exact List.mem_cons_of_mem _ (ih _ t ht)
 
 /-- the bot's loop over the kicked nicks against the server's removal, member by member -/
-theorem kick_sim (botKey key : Str) (ts : List Str) :
+theorem kick_sim {mp ms bs : Bool} (botKey key : Str) (ts : List Str) :
     ∀ (sc : SChan) (ch : Chan) (b : Bot), lower b.nick = botKey → aget b.channels key = some ch →
-      ChanMatches sc ch → sc.has botKey = true →
+      ChanMatches mp ms bs sc ch → sc.has botKey = true →
       let b' := b.kickLoop key (kickTargets sc ts).2
       b'.nick = b.nick ∧ b'.pfx = b.pfx ∧ b'.n2h = b.n2h ∧ b'.cfgNick = b.cfgNick ∧ b'.cfgIdent = b.cfgIdent ∧
       (∀ k, k ≠ key → aget b'.channels k = aget b.channels k) ∧
       (match aget b'.channels key with
         | none => (kickTargets sc ts).1.has botKey = false
-        | some ch' => (kickTargets sc ts).1.has botKey = true ∧ ChanMatches (kickTargets sc ts).1 ch') := by
+        | some ch' => (kickTargets sc ts).1.has botKey = true ∧ ChanMatches mp ms bs (kickTargets sc ts).1 ch') := by
   induction ts with
   | nil =>
     intro sc ch b _ hch hm hb
@@ -141,6 +137,16 @@ theorem putChan_bot (s : Srv) (key : Str) (sc : SChan) : (s.putChan key sc).bot 
   unfold Srv.putChan; split <;> rfl
 theorem putChan_botKey (s : Srv) (key : Str) (sc : SChan) : (s.putChan key sc).botKey = s.botKey := by
   simp [Srv.botKey, putChan_bot]
+theorem putChan_told (s : Srv) (key : Str) (sc : SChan) : (s.putChan key sc).told = s.told := by
+  unfold Srv.putChan; split <;> rfl
+theorem putChan_ms (s : Srv) (key : Str) (sc : SChan) : (s.putChan key sc).modesSynced = s.modesSynced := by
+  unfold Srv.putChan; split <;> rfl
+theorem putChan_bs (s : Srv) (key : Str) (sc : SChan) : (s.putChan key sc).bansSynced = s.bansSynced := by
+  unfold Srv.putChan; split <;> rfl
+theorem putChan_mSynced (s : Srv) (key : Str) (sc : SChan) (k : Str) : (s.putChan key sc).mSynced k = s.mSynced k := by
+  simp [Srv.mSynced, putChan_ms]
+theorem putChan_bSynced (s : Srv) (key : Str) (sc : SChan) (k : Str) : (s.putChan key sc).bSynced k = s.bSynced k := by
+  simp [Srv.bSynced, putChan_bs]
 theorem putChan_cfg (s : Srv) (key : Str) (sc : SChan) : (s.putChan key sc).cfg = s.cfg := by
   unfold Srv.putChan; split <;> rfl
 
@@ -195,7 +201,7 @@ theorem coupled_kick {s : Srv} {b : Bot} (hw : SrvWF s) (hc : Coupled s b) (src 
             simp only [Bot.stateCmd, cmdOf_KICK, Bot.doKick, hchan, hcw.key, hsplit]
             have hbk : lower b0.nick = s.botKey := by rw [hc0.nick]; rfl
             obtain ⟨h1, h2, h3, h4, h5, h6, h7⟩ := kick_sim s.botKey (lower c) ts sc ch b0 hbk hbc hrel0.2 hrel0.1
-            refine coupled_update' hc0 hw.chansNodup (lower c) (putChan_users _ _ _) (putChan_bot _ _ _) (putChan_cfg _ _ _) hnd' ?_ h6 ?_ h1 h4 h5 h3 h2 ?_ ?_
+            refine coupled_update' hc0 (lower c) (putChan_users _ _ _) (putChan_bot _ _ _) (putChan_cfg _ _ _) (putChan_ms _ _ _) (putChan_bs _ _ _) (putChan_told _ _ _) ?_ h6 ?_ h1 h4 h5 h3 h2 ?_ ?_
             · intro k hk; rw [putChan_get]; simp [Ne.symm hk]
             · rw [putChan_get]
               simp only [↓reduceIte]
@@ -208,19 +214,19 @@ theorem coupled_kick {s : Srv} {b : Bot} (hw : SrvWF s) (hc : Coupled s b) (src 
                   rw [has_of_nonempty_false hemp] at h7; exact absurd h7.1 (by simp)
               · simp only [hemp, Bool.false_eq_true, ↓reduceIte]
                 cases hb' : aget (b0.kickLoop (lower c) (kickTargets sc ts).2).channels (lower c) with
-                | none => rw [hb'] at h7; simp only [ChanRel, putChan_botKey]; exact h7
-                | some ch' => rw [hb'] at h7; simp only [ChanRel, putChan_botKey]; exact h7
+                | none => rw [hb'] at h7; simp only [ChanRel, putChan_botKey, putChan_cfg, putChan_mSynced, putChan_bSynced]; exact h7
+                | some ch' => rw [hb'] at h7; simp only [ChanRel, putChan_botKey, putChan_cfg, putChan_mSynced, putChan_bSynced]; exact h7
             · intro sc0 sc' h0 h' hb'
               rw [hch] at h0; cases h0
               rw [putChan_get] at h'
               simp only [↓reduceIte] at h'
               split at h'
               · cases h'
-              · cases h'; exact ⟨kickTargets_has hb', fun k hk => kickTargets_has hk⟩
+              · cases h'; exact kickTargets_has hb'
             · intro sc' h0; rw [hch] at h0; cases h0
         · simp only [hb, Bool.false_eq_true, ↓reduceIte, recvAll_nil]
           have hb' : sc.has s.botKey = false := by simpa [Srv.botIn] using hb
-          refine coupled_update' hc hw.chansNodup (lower c) (putChan_users _ _ _) (putChan_bot _ _ _) (putChan_cfg _ _ _) hnd' ?_ (fun _ _ => rfl) ?_ rfl rfl rfl rfl rfl ?_ ?_
+          refine coupled_update' hc (lower c) (putChan_users _ _ _) (putChan_bot _ _ _) (putChan_cfg _ _ _) (putChan_ms _ _ _) (putChan_bs _ _ _) (putChan_told _ _ _) ?_ (fun _ _ => rfl) ?_ rfl rfl rfl rfl rfl ?_ ?_
           · intro k hk; rw [putChan_get]; simp [Ne.symm hk]
           · rw [putChan_get]
             simp only [↓reduceIte]
@@ -231,7 +237,7 @@ theorem coupled_kick {s : Srv} {b : Bot} (hw : SrvWF s) (hc : Coupled s b) (src 
             rw [hbn]
             split
             · trivial
-            · simp only [ChanRel, putChan_botKey]
+            · simp only [ChanRel, putChan_botKey, putChan_cfg, putChan_mSynced, putChan_bSynced]
               rw [← Bool.not_eq_true]; intro hcon
               have := kickTargets_has hcon
               rw [hb'] at this; cases this
@@ -241,7 +247,7 @@ theorem coupled_kick {s : Srv} {b : Bot} (hw : SrvWF s) (hc : Coupled s b) (src 
             simp only [↓reduceIte] at h'
             split at h'
             · cases h'
-            · cases h'; exact ⟨kickTargets_has hb'', fun k hk => kickTargets_has hk⟩
+            · cases h'; exact kickTargets_has hb''
           · intro sc' h0; rw [hch] at h0; cases h0
   · exact hc
 
@@ -280,11 +286,11 @@ theorem leave_sim (k nick : Str) (hk : lower nick = k) (cs : List Str) :
         have hw1 : SrvWF (s.putChan (lower c) (sc.remove k)) := wf_putChan hw _ _ (chanWF_remove hcw _)
         have hnd' := putChan_nodup hw.chansNodup (lower c) (sc.remove k)
         have hgen : ∀ (b1 : Bot), (∀ k', k' ≠ lower c → aget b1.channels k' = aget b.channels k') →
-            ChanRel (s.putChan (lower c) (sc.remove k)) (aget (s.putChan (lower c) (sc.remove k)).chans (lower c)) (aget b1.channels (lower c)) →
+            ChanRel (s.putChan (lower c) (sc.remove k)) (lower c) (aget (s.putChan (lower c) (sc.remove k)).chans (lower c)) (aget b1.channels (lower c)) →
             b1.nick = b.nick → b1.cfgNick = b.cfgNick → b1.cfgIdent = b.cfgIdent → b1.n2h = b.n2h → b1.pfx = b.pfx →
             Coupled (s.putChan (lower c) (sc.remove k)) b1 := by
           intro b1 h1 h2 h3 h4 h5 h6 h7
-          refine coupled_update' hc hw.chansNodup (lower c) (putChan_users _ _ _) (putChan_bot _ _ _) (putChan_cfg _ _ _) hnd'
+          refine coupled_update' hc (lower c) (putChan_users _ _ _) (putChan_bot _ _ _) (putChan_cfg _ _ _) (putChan_ms _ _ _) (putChan_bs _ _ _) (putChan_told _ _ _)
             ?_ h1 h2 h3 h4 h5 h6 h7 ?_ ?_
           · intro k' hk'; rw [putChan_get]; simp [Ne.symm hk']
           · intro sc0 sc' h0 h' hb'
@@ -293,7 +299,7 @@ theorem leave_sim (k nick : Str) (hk : lower nick = k) (cs : List Str) :
             simp only [↓reduceIte] at h'
             split at h'
             · cases h'
-            · cases h'; exact ⟨has_remove_of hb', fun x hx => has_remove_of hx⟩
+            · cases h'; exact has_remove_of hb'
           · intro sc' h0; rw [hch] at h0; cases h0
         by_cases hb : s.botIn sc = true
         · simp only [hb, ↓reduceIte, List.foldl_cons]
@@ -313,7 +319,7 @@ theorem leave_sim (k nick : Str) (hk : lower nick = k) (cs : List Str) :
                 simp only [hself, ↓reduceIte, hcw.key]
                 apply hgen
                 · intro k' hk'; show aget (adel b.channels (lower c)) k' = _; rw [aget_adel]; simp [Ne.symm hk']
-                · show ChanRel _ _ (aget (adel b.channels (lower c)) (lower c))
+                · show ChanRel _ _ _ (aget (adel b.channels (lower c)) (lower c))
                   rw [aget_adel_self, putChan_get]
                   simp only [↓reduceIte]
                   split
@@ -327,7 +333,7 @@ theorem leave_sim (k nick : Str) (hk : lower nick = k) (cs : List Str) :
                 simp only [hself, Bool.false_eq_true, ↓reduceIte, Bot.setChan, hcw.key]
                 apply hgen
                 · intro k' hk'; show aget (aset b.channels (lower c) _) k' = _; exact aget_aset_ne _ _ (Ne.symm hk')
-                · show ChanRel _ _ (aget (aset b.channels (lower c) (ch.removeUser nick)) (lower c))
+                · show ChanRel _ _ _ (aget (aset b.channels (lower c) (ch.removeUser nick)) (lower c))
                   rw [aget_aset_self, putChan_get]
                   simp only [↓reduceIte]
                   have hbin : (sc.remove k).has s.botKey = true := has_remove.mpr ⟨fun e => hkb e.symm, hb'⟩
@@ -335,7 +341,7 @@ theorem leave_sim (k nick : Str) (hk : lower nick = k) (cs : List Str) :
                     cases he : (sc.remove k).members.isEmpty with
                     | false => rfl
                     | true => rw [has_of_nonempty_false he] at hbin; cases hbin
-                  simp only [hne, Bool.false_eq_true, ↓reduceIte, ChanRel, putChan_botKey]
+                  simp only [hne, Bool.false_eq_true, ↓reduceIte, ChanRel, putChan_botKey, putChan_cfg, putChan_mSynced, putChan_bSynced]
                   exact ⟨hbin, hk ▸ chanMatches_remove hrel.2 nick⟩
                 all_goals rfl
             obtain ⟨ih1, ih2⟩ := ih _ _ hw1 hcoup
@@ -357,7 +363,7 @@ theorem leave_sim (k nick : Str) (hk : lower nick = k) (cs : List Str) :
             simp only [↓reduceIte]
             split
             · trivial
-            · simp only [ChanRel, putChan_botKey]
+            · simp only [ChanRel, putChan_botKey, putChan_cfg, putChan_mSynced, putChan_bSynced]
               rw [← Bool.not_eq_true]; intro hcon
               rw [has_remove_of hcon] at hb'; cases hb'
           exact ih _ _ hw1 hcoup
